@@ -1,4 +1,5 @@
 import RtenVerif.Model.TensorBounds
+import RtenVerif.Model.ExtData
 
 /-!
 Model of the constant-construction arithmetic of the two model loaders (property C05):
@@ -18,7 +19,16 @@ checks (`ovf = true`: overflow is a panic).  `checked_*` calls are modelled by w
 Tensor construction is `TensorBounds.M.tryFromData` (C06's machine model of
 `TensorBase::try_from_data` after fix 977f98f); `from_data` panics where `try_from_data` errs.
 
-Everything that can panic in the code is an explicit `Outcome.panic` here.  `Old.*` is the
+Everything that can panic in the code is an explicit `Outcome.panic` here, guarded by the
+condition under which the real code panics: the `unwrap`/`expect` on `ArcSlice::new`
+(onnx_loader.rs `tensor_from_external_data`, rten_loader.rs both constant builders), the
+`ArcSlice::from_bytes(Vec::new()).unwrap()` fallback, the slice index of `DataSlice::data()`
+(external_data.rs), `spare_capacity[..n]` in `convert_f16_constant`, `chunk.try_into().unwrap()`
+in the copying branch of `constant_data_from_storage_offset`, the infallible `Tensor::from_data`
+of the `Constant` operator's `value_int(s)`/`value_float(s)` attributes and of attribute-to-input
+promotion, and (overflow-checking builds) the unchecked `*`/`+`/`-` inside
+`DynLayout::from_shape` / `Layout::min_data_len`, which `try_from_data` runs after
+`checked_shape_len`.  `Props/C05.lean` proves every one of these guards unreachable.  `Old.*` is the
 `.rten` constant code before the C05 `fix:` commits (kept for the negation witnesses); the
 un-prefixed definitions are the code as it is now.
 
@@ -42,12 +52,13 @@ inductive ErrC where
   | mismatch   -- "length N does not match shape S"
   | offset     -- "invalid tensor data offset"
   | nodata     -- "tensor data section missing"
+  | opinvalid  -- "operator error: …" (`Constant` node without / with several / with unsupported value attributes)
   deriving DecidableEq, Repr
 
 def ErrC.toString : ErrC → String
   | .shape => "shape" | .location => "location" | .extmeta => "extmeta" | .extdata => "extdata"
   | .dtype => "dtype" | .align => "align" | .mismatch => "mismatch" | .offset => "offset"
-  | .nodata => "nodata"
+  | .nodata => "nodata" | .opinvalid => "opinvalid"
 
 /-- Result of building one constant: the tensor's shape and the number of elements of the
 storage it was paired with; or a `LoadError`; or a panic. -/
@@ -93,7 +104,8 @@ def checkedProd : List U → U → Option U
 
 /-! ## Tensor construction step -/
 
-/-- `try_from_data(shape, data)` with the failure mapped to a `LoadError` (`map_err`). -/
+/-- `try_from_data(shape, data)` with the failure mapped to a `LoadError` (`map_err`), on the
+wrap-around machine model of C06 (no arithmetic panics: see `tryFromDataG`). -/
 def tryFromData (shape : List U) (len : U) : Outcome :=
   match M.tryFromData shape len with
   | .ok _ => .ok (M.toNs shape) len.toNat
@@ -104,6 +116,98 @@ def fromData (shape : List U) (len : U) : Outcome :=
   match M.tryFromData shape len with
   | .ok _ => .ok (M.toNs shape) len.toNat
   | .error _ => .panic
+
+/-! ### The unchecked arithmetic inside `try_from_data` (mode aware)
+
+After `checked_shape_len(&shape)` succeeded, `L::from_shape` computes the contiguous strides
+with `stride *= shape[i]` and `Layout::min_data_len` sums `(size - 1) * stride` — plain
+operators, which panic on overflow in a build with overflow checks.  `none` = such a panic. -/
+
+/-- `DynLayout::contiguous_shape_and_strides`: strides (outermost first) and the final value of
+the running `stride` (the loop multiplies by the outermost size as well). -/
+def stridesMode (ovf : Bool) : List U → Option (List U × U)
+  | [] => some ([], 1)
+  | s :: ss =>
+    match stridesMode ovf ss with
+    | none => none
+    | some (st, run) =>
+      match mulMode ovf run s with
+      | none => none
+      | some run' => some (run :: st, run')
+
+/-- `usize - 1`: wraps in release, panics with overflow checks when the operand is 0. -/
+def predMode (ovf : Bool) (a : U) : Option U :=
+  if ovf = true ∧ a = 0 then none else some (a - 1)
+
+/-- `.map(|(size, stride)| (size - 1) * stride).sum()` (left fold from `acc`). -/
+def maxOffsetMode (ovf : Bool) : List (U × U) → U → Option U
+  | [], acc => some acc
+  | (size, stride) :: ds, acc =>
+    match predMode ovf size with
+    | none => none
+    | some p =>
+      match mulMode ovf p stride with
+      | none => none
+      | some t =>
+        match addMode ovf acc t with
+        | none => none
+        | some a => maxOffsetMode ovf ds a
+
+/-- `Layout::min_data_len`. -/
+def minDataLenMode (ovf : Bool) (dims : List (U × U)) : Option U :=
+  if M.hasZero dims then some 0
+  else
+    match maxOffsetMode ovf dims 0 with
+    | none => none
+    | some mo => addMode ovf mo 1
+
+/-- `TensorBase::try_from_data` including the arithmetic panics of its unchecked part. -/
+def tryFromDataMode (ovf : Bool) (shape : List U) (len : U) :
+    Option (Except Err (List (U × U))) :=
+  if (M.checkedShapeLen shape).isNone then some (.error .mismatch)
+  else
+    match stridesMode ovf shape with
+    | none => none
+    | some (st, _) =>
+      match minDataLenMode ovf (shape.zip st) with
+      | none => none
+      | some m => some (if m ≠ len then .error .mismatch else .ok (shape.zip st))
+
+/-- `try_from_data(..).map_err(..)` as the loaders call it, with every panic explicit. -/
+def tryFromDataG (ovf : Bool) (shape : List U) (len : U) : Outcome :=
+  match tryFromDataMode ovf shape len with
+  | none => .panic
+  | some (.ok _) => .ok (M.toNs shape) len.toNat
+  | some (.error _) => .err .mismatch
+
+/-- `Tensor::from_data(shape, data)` (infallible constructor) with every panic explicit. -/
+def fromDataG (ovf : Bool) (shape : List U) (len : U) : Outcome :=
+  match tryFromDataMode ovf shape len with
+  | none => .panic
+  | some (.ok _) => .ok (M.toNs shape) len.toNat
+  | some (.error _) => .panic
+
+/-! ### `ArcSlice` construction -/
+
+/-- `ArcSlice::new(storage, data).is_some()` (`ConstantStorage::byte_range_of`): `slen` is the
+storage length in bytes, `start` the byte offset of `data` inside the storage (`none`: `data`
+lives elsewhere — e.g. the `&[]` literal `cast_slice` returns for empty input), `bytes` its
+size.  Outside or overhanging slices are accepted only when empty. -/
+def arcSliceNewOk (slen : Nat) (start : Option Nat) (bytes : Nat) : Bool :=
+  match start with
+  | some st => if st < slen ∧ st + bytes ≤ slen then true else decide (bytes = 0)
+  | none => decide (bytes = 0)
+
+/-- `ArcSlice::<T>::from_bytes(buf)` on an allocator-aligned buffer of `bytes` bytes. -/
+def fromBytesLen (size bytes : U) : Option U :=
+  if bytes % size = 0 then some (bytes / size) else none
+
+/-- Result of the element-count step of a constant builder. -/
+inductive Cnt where
+  | n (k : U)
+  | err (e : ErrC)
+  | panic
+  deriving DecidableEq, Repr
 
 /-! ## ONNX initializers -/
 
@@ -130,13 +234,13 @@ def typedLen (t : Typed) : DType → U
   | .double => t.doubles
   | .unsupported | .missing => 0
 
-/-- The data-location part of a `TensorProto`, after the data loader ran. -/
+/-- The data-location part of a `TensorProto`. -/
 inductive Ext where
   | none                           -- `data_location` absent or DEFAULT
   | badLocation                    -- a `data_location` other than DEFAULT / EXTERNAL
   | badMeta                        -- `external_data_location` failed
-  | loadErr                        -- the `DataLoader` returned an error
-  | ok (bytes : U) (offset : U)    -- a slice of `bytes` bytes at `offset` in an aligned buffer
+  | loadErr                        -- the `DataLoader` refused the path (not found / not allowed)
+  | ref (length offset bufLen : U) -- `offset`/`length` into a registered buffer of `bufLen` bytes
   deriving DecidableEq, Repr
 
 structure OnnxInit where
@@ -156,19 +260,30 @@ def onnxShape : List Int → Option (List U)
       | none => none
       | some s => some (UInt64.ofNat d.toNat :: s)
 
-/-- The data source the constructors use: `raw_data` wins over external data, which wins over
-the typed field. -/
-inductive Src where
-  | raw (bytes : U)
-  | ext (bytes : U) (offset : U)
-  | typed (n : U)
+/-- A `DataSlice`: byte range `start..stop` of a storage of `bufLen` bytes. -/
+structure ExtSlice where
+  start : Nat
+  stop : Nat
+  bufLen : Nat
   deriving DecidableEq, Repr
 
-def pickSrc (c : OnnxInit) : Src :=
-  match c.raw, c.ext with
-  | some b, _ => .raw b
-  | none, .ok b o => .ext b o
-  | none, _ => .typed (typedLen c.typed c.dtype)
+/-- Data location + `DataLoader::load` (`MemLoader`: C21's `ExtData.memRange`). -/
+def loadExt : Ext → Except ErrC (Option ExtSlice)
+  | .none => .ok none
+  | .badLocation => .error .location
+  | .badMeta => .error .extmeta
+  | .loadErr => .error .extdata
+  | .ref len off buf =>
+    match ExtData.memRange off.toNat len.toNat buf.toNat with
+    | .error _ => .error .extdata
+    | .ok (s, e) => .ok (some ⟨s, e, buf.toNat⟩)
+
+/-- `DataSlice::data()` = `&self.storage.data()[self.bytes.clone()]`: `(length, offset)` of the
+byte slice, `none` = the slice index panics. -/
+def ExtSlice.data (d : ExtSlice) : Option (U × U) :=
+  if d.start ≤ d.stop ∧ d.stop ≤ d.bufLen then
+    some (UInt64.ofNat (d.stop - d.start), UInt64.ofNat d.start)
+  else none
 
 /-- `cast_slice::<u8, T>` on `bytes` bytes starting `offset` bytes into a buffer whose base is
 aligned for `T` (`size = size_of::<T>() = align_of::<T>()`): element count, or `none`. -/
@@ -177,54 +292,95 @@ def castSliceLen (size bytes offset : U) : Option U :=
   else if offset % size = 0 ∧ bytes % size = 0 then some (bytes / size)
   else none
 
-/-- Element count for `make_constant::<T>` (`size = size_of::<T>()`):
-`tensor_from_bytes` (`ArcSlice::from_bytes`: allocator-aligned buffer, length must be a
-multiple of the element size), `tensor_from_external_data` (`cast_slice`; the
-`data.is_empty()` fallback is dead code because `cast_slice` accepts every empty slice), or the
-typed field. -/
-def directLen (size : U) : Src → Option U
-  | .raw b => if b % size = 0 then some (b / size) else none
-  | .ext b o => castSliceLen size b o
-  | .typed n => some n
+/-- Element count of `make_constant::<T>` (`size = size_of::<T>()`): `tensor_from_bytes`,
+`tensor_from_external_data` or the typed field. -/
+def makeCount (size : U) (raw : Option U) (ext : Option ExtSlice) (typed : U) : Cnt :=
+  match raw with
+  | some b =>
+    -- `ArcSlice::from_bytes(data)`: "data has incorrect alignment" if the length is no multiple
+    match fromBytesLen size b with
+    | some k => .n k
+    | none => .err .align
+  | none =>
+    match ext with
+    | some d =>
+      match d.data with
+      | none => .panic                                  -- external_data.rs `DataSlice::data`
+      | some (bytes, off) =>
+        match castSliceLen size bytes off with
+        | some k =>
+          -- `ArcSlice::new(data.storage.clone(), elements).unwrap()`
+          if arcSliceNewOk d.bufLen (if bytes = 0 then none else some off.toNat)
+              (k.toNat * size.toNat) then .n k
+          else .panic
+        | none =>
+          if bytes = 0 then
+            -- `ArcSlice::from_bytes(Vec::new()).unwrap()`
+            match fromBytesLen size 0 with
+            | some k => .n k
+            | none => .panic
+          else .err .align
+    | none => .n typed
 
-/-- Element count for `convert_constant` (`n = size of the source element`):
+/-- Element count of `convert_constant` (`n` = size of a source element):
 `elements_from_le_bytes` ignores a trailing partial chunk. -/
-def convLen (n : U) : Src → U
-  | .raw b => b / n
-  | .ext b _ => b / n
-  | .typed k => k
+def convCount (n : U) (raw : Option U) (ext : Option ExtSlice) (typed : U) : Cnt :=
+  match raw with
+  | some b => .n (b / n)
+  | none =>
+    match ext with
+    | some d =>
+      match d.data with
+      | none => .panic
+      | some (bytes, _) => .n (bytes / n)
+    | none => .n typed
 
-/-- Element count for `convert_f16_constant`: `f16_slice_from_le_bytes` = `cast_slice` to `u16`. -/
-def f16Len : Src → Option U
-  | .raw b => castSliceLen 2 b 0
-  | .ext b o => castSliceLen 2 b o
-  | .typed n => some n
+/-- Capacity of `Vec::with_capacity(n)` (at least `n`). -/
+def vecCapacity (n : U) : U := n
+
+/-- Element count of `convert_f16_constant`: `external_data.map(|d| d.data())` is evaluated
+first (even if `raw_data` is present), `f16_slice_from_le_bytes` = `cast_slice` to `u16`, then
+`Vec::with_capacity(n)` and `&mut spare_capacity[..n]`. -/
+def f16Count (raw : Option U) (ext : Option ExtSlice) (typed : U) : Cnt :=
+  let extBytes : Option (Option (U × U)) := ext.map ExtSlice.data
+  match extBytes with
+  | some none => .panic
+  | _ =>
+    let cast : Option (Option U) :=
+      match raw, extBytes with
+      | some b, _ => some (castSliceLen 2 b 0)
+      | none, some (some (bytes, off)) => some (castSliceLen 2 bytes off)
+      | none, _ => none
+    match cast with
+    | some none => .err .align
+    | some (some k) => if k.toNat ≤ (vecCapacity k).toNat then .n k else .panic
+    | none => if typed.toNat ≤ (vecCapacity typed).toNat then .n typed else .panic
+
+/-- Constant from an element-count step. -/
+def finish (ovf : Bool) (shape : List U) : Cnt → Outcome
+  | .n k => tryFromDataG ovf shape k
+  | .err e => .err e
+  | .panic => .panic
+
+/-- The element-count step `load_constant` dispatches to. -/
+def onnxCount (c : OnnxInit) (ext : Option ExtSlice) : Cnt :=
+  let t := typedLen c.typed c.dtype
+  match c.dtype with
+  | .float | .int32 => makeCount 4 c.raw ext t
+  | .uint8 | .int8 => makeCount 1 c.raw ext t
+  | .int64 | .double => convCount 8 c.raw ext t
+  | .bool => convCount 1 c.raw ext t
+  | .float16 => f16Count c.raw ext t
+  | .unsupported | .missing => .err .dtype
 
 /-- `load_constant`. -/
-def loadConstant (c : OnnxInit) : Outcome :=
+def loadConstant (ovf : Bool) (c : OnnxInit) : Outcome :=
   match onnxShape c.dims with
   | none => .err .shape
   | some shape =>
-    match c.ext with
-    | .badLocation => .err .location
-    | .badMeta => .err .extmeta
-    | .loadErr => .err .extdata
-    | _ =>
-      let src := pickSrc c
-      let direct (size : U) : Outcome :=
-        match directLen size src with
-        | none => .err .align
-        | some n => tryFromData shape n
-      match c.dtype with
-      | .float | .int32 => direct 4
-      | .uint8 | .int8 => direct 1
-      | .int64 | .double => tryFromData shape (convLen 8 src)
-      | .bool => tryFromData shape (convLen 1 src)
-      | .float16 =>
-        match f16Len src with
-        | none => .err .align
-        | some n => tryFromData shape n
-      | .unsupported | .missing => .err .dtype
+    match loadExt c.ext with
+    | .error e => .err e
+    | .ok ext => finish ovf shape (onnxCount c ext)
 
 /-- Size in bytes of one *source* element of a byte-backed initializer. -/
 def srcElemSize : DType → Nat
@@ -233,6 +389,47 @@ def srcElemSize : DType → Nat
   | .int64 | .double => 8
   | .float16 => 2
   | .unsupported | .missing => 1
+
+/-! ### Constants that do not go through `load_constant` -/
+
+/-- Value attributes of a `Constant` node, in file order. -/
+inductive ConstAttr where
+  | value (t : OnnxInit)     -- `value`: a TensorProto → `load_constant`
+  | valueInt                 -- `Tensor::from_data(&[], vec![x])`
+  | valueInts (n : U)        -- `Tensor::from_data(&[n], ints)` with `n = ints.len()`
+  | valueFloat
+  | valueFloats (n : U)
+  | valueNoTensor            -- `value` without a tensor payload
+  | unnamed                  -- attribute without a name: skipped
+  | other                    -- sparse_tensor, value_string(s), anything else
+  deriving DecidableEq, Repr
+
+/-- The constant one value attribute builds. -/
+def constAttr (ovf : Bool) : ConstAttr → Outcome
+  | .value t => loadConstant ovf t
+  | .valueInt | .valueFloat => fromDataG ovf [] 1
+  | .valueInts n | .valueFloats n => fromDataG ovf [n] n
+  | .valueNoTensor | .other | .unnamed => .err .opinvalid
+
+/-- Attribute loop of `load_constant_from_constant_op`. -/
+def constOpGo (ovf : Bool) : List ConstAttr → Option (List Nat × Nat) → Outcome
+  | [], none => .err .opinvalid            -- "value attribute not found"
+  | [], some (s, n) => .ok s n
+  | .unnamed :: as, cur => constOpGo ovf as cur
+  | a :: as, cur =>
+    match constAttr ovf a with
+    | .ok s n => if cur.isSome then .err .opinvalid else constOpGo ovf as (some (s, n))
+    | o => o
+
+/-- `load_constant_from_constant_op` (`outputs` = number of outputs of the node). -/
+def constOp (ovf : Bool) (outputs : Nat) (attrs : List ConstAttr) : Outcome :=
+  if outputs ≠ 1 then .err .opinvalid else constOpGo ovf attrs none
+
+/-- `constant_from_attr_value`: an attribute promoted to an operator input
+(`Tensor::from(scalar)` → `from_scalar`, `Tensor::from(vec)` → `from_data(&[len], vec)`). -/
+def attrConstant (ovf : Bool) : Option U → Outcome
+  | none => fromDataG ovf [] 1
+  | some n => fromDataG ovf [n] n
 
 /-! ## `.rten` constants -/
 
@@ -248,7 +445,9 @@ def RType.size : RType → U
   | .other => 1
 
 inductive RData where
-  | inline (n : U)           -- inline vector with `n` elements
+  /-- inline vector with `n` elements whose bytes start `start` bytes into the file (the
+  flatbuffers verifier guarantees the vector lies inside the buffer) -/
+  | inline (n : U) (start : U)
   | stored (dataOffset : U)  -- `data_offset` into the tensor data segment
   deriving DecidableEq, Repr
 
@@ -265,10 +464,26 @@ structure RtenFile where
   storageLen : U
   deriving DecidableEq, Repr
 
-/-- `constant_data_from_storage_offset::<T>` (both the aligned-view and the copy branch build
-`bytes.len() / size_of::<T>()` elements): `try_fold(1, checked_mul)` over the dims, then
-`checked_mul(size_of::<T>())`, `checked_add(offset)`, `slice::get`, `try_from_data`. -/
-def fromStorageOffset (size : U) (shape : List U) (offset storageLen : U) : Outcome :=
+/-- `cast_le_bytes(bytes)` succeeds: empty, or (little-endian host) aligned with a length that
+is a multiple of the element size.  The storage base is allocator/page aligned. -/
+def castLeOk (size bytes offset : U) : Bool :=
+  bytes == 0 || (offset % size == 0 && bytes % size == 0)
+
+/-- Both branches of the two `.rten` constant builders for `bytes` bytes at `offset`:
+view (`ArcSlice::new(..).expect("storage does not contain data")`) or copy
+(`bytes.chunks(size).map(|chunk| T::from_le_bytes(chunk.try_into().unwrap()))`). -/
+def rtenCount (size bytes offset slen : U) : Cnt :=
+  if castLeOk size bytes offset then
+    if arcSliceNewOk slen.toNat (if bytes = 0 then none else some offset.toNat) bytes.toNat then
+      .n (bytes / size)
+    else .panic
+  else if bytes % size = 0 then .n (bytes / size)
+  else .panic
+
+/-- `constant_data_from_storage_offset::<T>`: `try_fold(1, checked_mul)` over the dims, then
+`checked_mul(size_of::<T>())`, `checked_add(offset)`, `slice::get`, view or copy,
+`try_from_data`. -/
+def fromStorageOffset (ovf : Bool) (size : U) (shape : List U) (offset storageLen : U) : Outcome :=
   match checkedProd shape 1 with
   | none => .err .offset
   | some n =>
@@ -278,10 +493,20 @@ def fromStorageOffset (size : U) (shape : List U) (offset storageLen : U) : Outc
       match checkedAdd offset byteLen with
       | none => .err .offset
       | some stop =>
-        if stop ≤ storageLen then tryFromData shape (byteLen / size) else .err .offset
+        if stop ≤ storageLen then finish ovf shape (rtenCount size byteLen offset storageLen)
+        else .err .offset
+
+/-- `constant_data_from_flatbuffers_vec`: `n` elements at `start`; the copying branch collects
+`fb_vec.iter()` (no chunking). -/
+def inlineCount (size n start slen : U) : Cnt :=
+  if castLeOk size (n * size) start then
+    if arcSliceNewOk slen.toNat (if n * size = 0 then none else some start.toNat)
+        (n * size).toNat then .n n
+    else .panic
+  else .n n
 
 /-- `add_graph_constant`. -/
-def addGraphConstant (f : RtenFile) (c : RtenConst) : Outcome :=
+def addGraphConstant (ovf : Bool) (f : RtenFile) (c : RtenConst) : Outcome :=
   match c.data with
   | .stored dataOffset =>
     match f.tensorDataOffset with
@@ -291,9 +516,10 @@ def addGraphConstant (f : RtenFile) (c : RtenConst) : Outcome :=
       | none => .err .offset
       | some offset =>
         if c.ty = .other then .err .dtype
-        else fromStorageOffset c.ty.size c.dims offset f.storageLen
-  | .inline n =>
-    if c.ty = .other then .err .dtype else tryFromData c.dims n
+        else fromStorageOffset ovf c.ty.size c.dims offset f.storageLen
+  | .inline n start =>
+    if c.ty = .other then .err .dtype
+    else finish ovf c.dims (inlineCount c.ty.size n start f.storageLen)
 
 namespace Old
 
@@ -324,7 +550,7 @@ def addGraphConstant (ovf : Bool) (f : RtenFile) (c : RtenConst) : Outcome :=
       | some offset =>
         if c.ty = .other then .err .dtype
         else fromStorageOffset ovf c.ty.size c.dims offset f.storageLen
-  | .inline n =>
+  | .inline n _ =>
     if c.ty = .other then .err .dtype else fromData c.dims n
 
 end Old
